@@ -130,6 +130,10 @@ type MsgRec struct {
 	Reached     bool
 	SentURL     string
 	SentHeaders map[string]string
+	// the body as the transport holds it (same backing array as the sender handed over): a real
+	// transport keeps it queued until a listener takes it, so it must not change afterwards
+	bodyRef []byte
+	bodyBad bool
 }
 
 // SendRec is one sender submission as seen by the shell.
@@ -216,7 +220,8 @@ func (p *simPlugin) Stop() error              { return nil }
 func (p *simPlugin) Enqueue(m *aio.Message) bool {
 	s := p.sim
 	out := s.curOutcome
-	rec := &MsgRec{Ev: s.nextEv(), Clock: s.Now, Cycle: s.curCycle, Type: string(m.Type), Plugin: p.typ, Data: string(m.Data), Body: string(m.Body), Outcome: out, TaskId: s.curTaskId, Counter: s.curCounter}
+	s.checkHeldBodies()
+	rec := &MsgRec{Ev: s.nextEv(), Clock: s.Now, Cycle: s.curCycle, Type: string(m.Type), Plugin: p.typ, Data: string(m.Data), Body: string(m.Body), Outcome: out, TaskId: s.curTaskId, Counter: s.curCounter, bodyRef: m.Body}
 	s.Msgs = append(s.Msgs, rec)
 	if out == "full" {
 		s.Stats["handoff."+out]++
@@ -239,6 +244,21 @@ func (p *simPlugin) Enqueue(m *aio.Message) bool {
 	s.onMessage(rec)
 	m.Done(ok, err)
 	return true
+}
+
+// checkHeldBodies verifies that the bodies handed to the transports earlier still hold the
+// bytes they held at the hand-off (the last few dozen messages of this server life).
+func (s *Sim) checkHeldBodies() {
+	for i := len(s.Msgs) - 1; i >= 0 && i >= len(s.Msgs)-40; i-- {
+		m := s.Msgs[i]
+		if m.bodyRef == nil || m.bodyBad {
+			continue
+		}
+		if string(m.bodyRef) != m.Body {
+			m.bodyBad = true
+			s.violate("C19.body_changed_after_handoff", P("C19", "C18", "C08"), "dispatch", "the bytes of a message handed to a transport changed afterwards", fmt.Sprintf("task %s: handed over %s, the transport now holds %s", m.TaskId, m.Body, string(m.bodyRef)))
+		}
+	}
 }
 
 type simRoundTripper struct {
@@ -1132,6 +1152,10 @@ func (s *Sim) doCrash() {
 		s.Path = filepath.Join(s.image, filepath.Base(s.Path))
 		s.image = ""
 		_ = os.RemoveAll(old)
+	}
+	s.checkHeldBodies()
+	for _, m := range s.Msgs {
+		m.bodyRef = nil
 	}
 	s.sys, s.api, s.aio, s.store, s.router, s.sender, s.shells = nil, nil, nil, nil, nil, nil, nil
 	s.rules.onCrash()
